@@ -8,7 +8,7 @@ Record case := mkCase {
   c_allow : bool;                      (* Token.AllowEscapes: false for raw strings *)
   c_lit : bytes;                       (* token value *)
   c_table : list (bytes * bytes);      (* code -> replacement text *)
-  c_tick : bytes;                      (* the code whose evaluations are counted *)
+  c_tick : list (bytes * nat);         (* code -> how often evaluating that code alone calls the counting function *)
   c_out : bytes;                       (* implementation: resulting string *)
   c_ticks : nat                        (* implementation: evaluations of c_tick *)
 }.
@@ -22,8 +22,15 @@ Fixpoint lookup (t : list (bytes * bytes)) (c : bytes) : option bytes :=
 Definition ev_of (t : list (bytes * bytes)) (c : bytes) : bytes :=
   match lookup t c with Some v => v | None => [] end.
 
-Definition count_eq (c : bytes) (l : list bytes) : nat :=
-  length (filter (bytes_eqb c) l).
+Fixpoint lookup_n (t : list (bytes * nat)) (c : bytes) : nat :=
+  match t with
+  | [] => O
+  | (k, v) :: t' => if bytes_eqb k c then v else lookup_n t' c
+  end.
+
+(* calls of the counting function the literal's own expressions make, each evaluated once *)
+Definition count_ticks (t : list (bytes * nat)) (l : list bytes) : nat :=
+  fold_right (fun c acc => (lookup_n t c + acc)%nat) O l.
 
 (* 0 = agree, 1 = output differs, 2 = number of evaluations differs,
    3 = a code the model evaluates is missing from the table (case not comparable) *)
@@ -34,7 +41,7 @@ Definition verdict (c : case) : nat :=
     if negb (forallb (fun k => match lookup (c_table c) k with Some _ => true | None => false end) log)
     then 3%nat
     else if negb (bytes_eqb out (c_out c)) then 1%nat
-    else if negb (Nat.eqb (count_eq (c_tick c) log) (c_ticks c)) then 2%nat
+    else if negb (Nat.eqb (count_ticks (c_tick c) log) (c_ticks c)) then 2%nat
     else 0%nat
   end.
 
